@@ -253,7 +253,33 @@ from .native import (get_harness, native_run, _jsonable, _unjson, load_contract_
 def run_task(args):
     if args[0] == "ground":
         return run_ground_chunk(args)
+    if args[0] == "bounded":
+        return run_bounded_chunk(args)
     return run_case(args)
+
+
+def run_bounded_chunk(args):
+    _, pid, name, tier, k, n, module_names, seed = args
+    t0 = time.time()
+    out = {"bounded": name, "chunk": k, "n": 0, "bad": 0, "nontriv": 0, "fails": [], "samples": [], "error": None}
+    try:
+        load_contract_modules(module_names)
+        prop = api.REGISTRY.props[pid]
+        fn = [g for g in prop.bounded if g[0] == name][0][1]
+        for item in fn(random.Random(seed * 1000 + k), tier, k, n):
+            out["n"] += 1
+            if len(item) < 4 or item[3]:
+                out["nontriv"] += 1
+            if len(out["samples"]) < 2:
+                out["samples"].append(str(item[0]))
+            if not item[1]:
+                out["bad"] += 1
+                if len(out["fails"]) < 400:
+                    out["fails"].append((item[0], str(item[2])))
+    except Exception as e:
+        out["error"] = "crash: %s\n%s" % (e, traceback.format_exc())
+    out["wall_s"] = round(time.time() - t0, 2)
+    return out
 
 
 def run_ground_chunk(args):
@@ -641,12 +667,25 @@ def run_property(pid, module_names, tier="quick", jobs=None, only=None):
             chunked[name] = []
             for k in range(nch):
                 tasks.append(("ground", pid, name, tier, k, nch, module_names))
+    bchunked = {}
+    for name, fn, opts in prop.bounded:
+        if only and only not in name:
+            continue
+        if opts.get("tier") == "thorough" and tier != "thorough":
+            continue
+        nch = opts.get("chunks")
+        if nch:
+            bchunked[name] = []
+            for k in range(nch):
+                tasks.append(("bounded", pid, name, tier, k, nch, module_names, seed))
     if tasks:
         ctxm = mp.get_context("fork")
         with ctxm.Pool(min(jobs, len(tasks))) as pool:
             for r in pool.imap_unordered(run_task, tasks, chunksize=1):
                 if "ground" in r:
                     chunked[r["ground"]].append(r)
+                elif "bounded" in r:
+                    bchunked[r["bounded"]].append(r)
                 else:
                     results.append(r)
     results.sort(key=lambda r: r.get("name", r["harness"]))
@@ -761,7 +800,22 @@ def run_property(pid, module_names, tier="quick", jobs=None, only=None):
         known_hits = {}
         bsamples = []
         try:
-            for item in fn(rng, tier):
+            if name in bchunked:
+                errs = [c["error"] for c in bchunked[name] if c["error"]]
+                if errs:
+                    raise RuntimeError(errs[0])
+                items = []
+                for c in sorted(bchunked[name], key=lambda c: c["chunk"]):
+                    n += c["n"] - len(c["fails"])
+                    nontriv += c["nontriv"] - len(c["fails"])
+                    bad += c["bad"] - len(c["fails"])
+                    bsamples.extend(c["samples"][:1])
+                    items.extend((lab, False, det, True) for lab, det in c["fails"])
+                bsamples = bsamples[:3]
+                tb -= max([c["wall_s"] for c in bchunked[name]] or [0])
+            else:
+                items = fn(rng, tier)
+            for item in items:
                 label, ok, detail = item[0], item[1], item[2]
                 n += 1
                 if len(item) < 4 or item[3]:
